@@ -947,7 +947,10 @@ class ExcludeRegionState(object):  # pylint: disable=too-many-instance-attribute
             self.pendingCommands[gcode] = pendingArgs
 
             for label, value in self.gcodeParser.parse(cmd).parameterItems():
-                pendingArgs[label] = value
+                # Skip the string argument pseudo-parameter (empty label), which repeats text
+                # already captured as individual parameters
+                if (label):
+                    pendingArgs[label] = value
         elif (mode == EXCLUDE_EXCEPT_FIRST):
             # Capture the first instance of the command encountered
             if (not (gcode in self.pendingCommands)):
